@@ -26,6 +26,52 @@ use crate::{
     void::Void,
 };
 
+fn malformed(expected: &str) -> StoryError {
+    StoryError::BadJson(format!("Malformed JSON: expected {expected}"))
+}
+
+pub(crate) fn as_str(value: &serde_json::Value) -> Result<&str, StoryError> {
+    value.as_str().ok_or_else(|| malformed("a string"))
+}
+
+pub(crate) fn as_i32(value: &serde_json::Value) -> Result<i32, StoryError> {
+    value
+        .as_i64()
+        .and_then(|n| i32::try_from(n).ok())
+        .ok_or_else(|| malformed("a 32-bit integer"))
+}
+
+pub(crate) fn as_usize(value: &serde_json::Value) -> Result<usize, StoryError> {
+    value
+        .as_u64()
+        .and_then(|n| usize::try_from(n).ok())
+        .ok_or_else(|| malformed("a non-negative integer"))
+}
+
+pub(crate) fn as_array(value: &serde_json::Value) -> Result<&Vec<serde_json::Value>, StoryError> {
+    value.as_array().ok_or_else(|| malformed("an array"))
+}
+
+pub(crate) fn as_object(
+    value: &serde_json::Value,
+) -> Result<&Map<String, serde_json::Value>, StoryError> {
+    value.as_object().ok_or_else(|| malformed("an object"))
+}
+
+pub(crate) fn get<'a>(
+    obj: &'a Map<String, serde_json::Value>,
+    key: &str,
+) -> Result<&'a serde_json::Value, StoryError> {
+    obj.get(key)
+        .ok_or_else(|| StoryError::BadJson(format!("Malformed JSON: missing key \"{key}\"")))
+}
+
+fn into_container(obj: Rc<dyn RTObject>) -> Result<Rc<Container>, StoryError> {
+    obj.into_any()
+        .downcast::<Container>()
+        .map_err(|_| malformed("a container"))
+}
+
 pub fn load_from_string(
     s: &str,
 ) -> Result<(i32, Rc<Container>, Rc<ListDefinitionsOrigin>), StoryError> {
@@ -34,15 +80,15 @@ pub fn load_from_string(
         Err(_) => return Err(StoryError::BadJson("Story not in JSON format.".to_owned())),
     };
 
-    let version_opt = json.get("inkVersion");
-
-    if version_opt.is_none() || !version_opt.unwrap().is_number() {
-        return Err(StoryError::BadJson(
-            "ink version number not found. Are you sure it's a valid .ink.json file?".to_owned(),
-        ));
-    }
-
-    let version: i32 = version_opt.unwrap().as_i64().unwrap().try_into().unwrap();
+    let version: i32 = match json.get("inkVersion").map(as_i32) {
+        Some(Ok(version)) => version,
+        _ => {
+            return Err(StoryError::BadJson(
+                "ink version number not found. Are you sure it's a valid .ink.json file?"
+                    .to_owned(),
+            ));
+        }
+    };
 
     if version > INK_VERSION_CURRENT {
         return Err(StoryError::BadJson(
@@ -72,15 +118,14 @@ pub fn load_from_string(
 
     let main_content_container = jtoken_to_runtime_object(root_token, None)?;
 
-    let main_content_container = main_content_container.into_any().downcast::<Container>();
-
-    if main_content_container.is_err() {
-        return Err(StoryError::BadJson(
-            "Root node for ink is not a container?".to_owned(),
-        ));
+    let main_content_container = match main_content_container.into_any().downcast::<Container>() {
+        Ok(container) => container,
+        Err(_) => {
+            return Err(StoryError::BadJson(
+                "Root node for ink is not a container?".to_owned(),
+            ));
+        }
     };
-
-    let main_content_container = main_content_container.unwrap(); // unwrap: checked for err above
 
     Ok((version, main_content_container, list_definitions))
 }
@@ -97,10 +142,9 @@ pub fn jtoken_to_runtime_object(
         serde_json::Value::Bool(value) => Ok(Rc::new(Value::new::<bool>(value.to_owned()))),
         serde_json::Value::Number(_) => {
             if token.is_i64() {
-                let val: i32 = token.as_i64().unwrap().try_into().unwrap();
-                Ok(Rc::new(Value::new::<i32>(val)))
+                Ok(Rc::new(Value::new::<i32>(as_i32(token)?)))
             } else {
-                let val: f32 = token.as_f64().unwrap() as f32;
+                let val = token.as_f64().ok_or_else(|| malformed("a number"))? as f32;
                 Ok(Rc::new(Value::new::<f32>(val)))
             }
         }
@@ -109,10 +153,9 @@ pub fn jtoken_to_runtime_object(
             let str = value.as_str();
 
             // String value
-            let first_char = str.chars().next().unwrap();
-            if first_char == '^' {
-                return Ok(Rc::new(Value::new::<&str>(&str[1..])));
-            } else if first_char == '\n' && str.len() == 1 {
+            if let Some(text) = str.strip_prefix('^') {
+                return Ok(Rc::new(Value::new::<&str>(text)));
+            } else if str == "\n" {
                 return Ok(Rc::new(Value::new::<&str>("\n")));
             }
 
@@ -162,12 +205,12 @@ pub fn jtoken_to_runtime_object(
             let prop_value = obj.get("^var");
 
             if let Some(v) = prop_value {
-                let variable_name = v.as_str().unwrap();
+                let variable_name = as_str(v)?;
                 let mut contex_index = -1;
                 let prop_value = obj.get("ci");
 
                 if let Some(v) = prop_value {
-                    contex_index = v.as_i64().unwrap() as i32;
+                    contex_index = as_i32(v)?;
                 }
 
                 let var_ptr = Rc::new(Value::new_variable_pointer(variable_name, contex_index));
@@ -209,7 +252,8 @@ pub fn jtoken_to_runtime_object(
             }
 
             if is_divert {
-                let target = prop_value.unwrap().as_str().unwrap().to_string();
+                let target =
+                    as_str(prop_value.ok_or_else(|| malformed("a divert target"))?)?.to_string();
 
                 let mut var_divert_name: Option<String> = None;
                 let mut target_path: Option<String> = None;
@@ -229,7 +273,7 @@ pub fn jtoken_to_runtime_object(
                 if external {
                     prop_value = obj.get("exArgs");
                     if let Some(prop_value) = prop_value {
-                        external_args = prop_value.as_i64().unwrap() as usize;
+                        external_args = as_usize(prop_value)?;
                     }
                 }
 
@@ -248,29 +292,24 @@ pub fn jtoken_to_runtime_object(
             let prop_value = obj.get("*");
             if let Some(cp) = prop_value {
                 let mut flags = 0;
-                let path_string_on_choice = cp.as_str().unwrap();
+                let path_string_on_choice = as_str(cp)?;
                 let prop_value = obj.get("flg");
                 if let Some(f) = prop_value {
-                    flags = f.as_u64().unwrap();
+                    flags = as_i32(f)?;
                 }
 
-                return Ok(Rc::new(ChoicePoint::new(
-                    flags as i32,
-                    path_string_on_choice,
-                )));
+                return Ok(Rc::new(ChoicePoint::new(flags, path_string_on_choice)));
             }
 
             // // Variable reference
             let prop_value = obj.get("VAR?");
             if let Some(name) = prop_value {
-                return Ok(Rc::new(VariableReference::new(name.as_str().unwrap())));
+                return Ok(Rc::new(VariableReference::new(as_str(name)?)));
             }
 
             let prop_value = obj.get("CNT?");
             if let Some(v) = prop_value {
-                return Ok(Rc::new(VariableReference::from_path_for_count(
-                    v.as_str().unwrap(),
-                )));
+                return Ok(Rc::new(VariableReference::from_path_for_count(as_str(v)?)));
             }
 
             // // Variable assignment
@@ -293,7 +332,7 @@ pub fn jtoken_to_runtime_object(
             }
 
             if is_var_ass {
-                let var_name = prop_value.unwrap().as_str().unwrap();
+                let var_name = as_str(prop_value.ok_or_else(|| malformed("a variable name"))?)?;
                 let prop_value = obj.get("re");
                 let is_new_decl = prop_value.is_none();
 
@@ -308,32 +347,30 @@ pub fn jtoken_to_runtime_object(
             // Legacy Tag
             prop_value = obj.get("#");
             if let Some(prop_value) = prop_value {
-                return Ok(Rc::new(Tag::new(prop_value.as_str().unwrap())));
+                return Ok(Rc::new(Tag::new(as_str(prop_value)?)));
             }
 
             // List value
             prop_value = obj.get("list");
 
             if let Some(pv) = prop_value {
-                let list_content = pv.as_object().unwrap();
+                let list_content = as_object(pv)?;
                 let mut raw_list = InkList::new();
 
                 prop_value = obj.get("origins");
 
                 if let Some(o) = prop_value {
-                    let names_as_objs = o.as_array().unwrap();
-
-                    let names = names_as_objs
+                    let names = as_array(o)?
                         .iter()
-                        .map(|e| e.as_str().unwrap().to_string())
-                        .collect();
+                        .map(|e| as_str(e).map(str::to_string))
+                        .collect::<Result<Vec<String>, StoryError>>()?;
 
                     raw_list.set_initial_origin_names(names);
                 }
 
                 for (k, v) in list_content {
                     let item = InkListItem::from_full_name(k);
-                    raw_list.items.insert(item, v.as_i64().unwrap() as i32);
+                    raw_list.items.insert(item, as_i32(v)?);
                 }
 
                 return Ok(Rc::new(Value::new::<InkList>(raw_list)));
@@ -360,7 +397,10 @@ fn jarray_to_container(
     //  - named content
     //  - a "#f" key with the countFlags
     // (if either exists at all, otherwise null)
-    let terminating_obj = jarray[jarray.len() - 1].as_object();
+    let terminating_obj = jarray
+        .last()
+        .ok_or_else(|| malformed("a container array with a terminating element"))?
+        .as_object();
     let mut name: Option<String> = name;
     let mut flags = 0;
 
@@ -369,16 +409,12 @@ fn jarray_to_container(
     if let Some(terminating_obj) = terminating_obj {
         for (k, v) in terminating_obj {
             match k.as_str() {
-                "#f" => flags = v.as_i64().unwrap().try_into().unwrap(),
-                "#n" => name = Some(v.as_str().unwrap().to_string()),
+                "#f" => flags = as_i32(v)?,
+                "#n" => name = Some(as_str(v)?.to_string()),
                 k => {
-                    let named_content_item =
-                        jtoken_to_runtime_object(v, Some(k.to_string())).unwrap();
+                    let named_content_item = jtoken_to_runtime_object(v, Some(k.to_string()))?;
 
-                    let named_sub_container = named_content_item
-                        .into_any()
-                        .downcast::<Container>()
-                        .unwrap();
+                    let named_sub_container = into_container(named_content_item)?;
 
                     named_only_content.insert(k.to_string(), named_sub_container);
                 }
@@ -402,7 +438,7 @@ pub fn jarray_to_runtime_obj_list(
     let mut count = jarray.len();
 
     if skip_last {
-        count -= 1;
+        count = count.saturating_sub(1);
     }
 
     let mut list: Vec<Rc<dyn RTObject>> = Vec::with_capacity(jarray.len());
@@ -416,12 +452,12 @@ pub fn jarray_to_runtime_obj_list(
 }
 
 fn jobject_to_choice(obj: &Map<String, serde_json::Value>) -> Result<Rc<dyn RTObject>, StoryError> {
-    let text = obj.get("text").unwrap().as_str().unwrap();
-    let index = obj.get("index").unwrap().as_u64().unwrap() as usize;
-    let source_path = obj.get("originalChoicePath").unwrap().as_str().unwrap();
-    let original_thread_index = obj.get("originalThreadIndex").unwrap().as_i64().unwrap() as usize;
-    let path_string_on_choice = obj.get("targetPath").unwrap().as_str().unwrap();
-    let choice_tags = jarray_to_tags(obj);
+    let text = as_str(get(obj, "text")?)?;
+    let index = as_usize(get(obj, "index")?)?;
+    let source_path = as_str(get(obj, "originalChoicePath")?)?;
+    let original_thread_index = as_usize(get(obj, "originalThreadIndex")?)?;
+    let path_string_on_choice = as_str(get(obj, "targetPath")?)?;
+    let choice_tags = jarray_to_tags(obj)?;
 
     Ok(Rc::new(Choice::new_from_json(
         path_string_on_choice,
@@ -433,18 +469,17 @@ fn jobject_to_choice(obj: &Map<String, serde_json::Value>) -> Result<Rc<dyn RTOb
     )))
 }
 
-fn jarray_to_tags(obj: &Map<String, serde_json::Value>) -> Vec<String> {
+fn jarray_to_tags(obj: &Map<String, serde_json::Value>) -> Result<Vec<String>, StoryError> {
     let mut tags: Vec<String> = Vec::new();
 
     let prop_value = obj.get("tags");
     if let Some(pv) = prop_value {
-        let tags_array = pv.as_array().unwrap();
-        for tag in tags_array {
-            tags.push(tag.as_str().unwrap().to_string());
+        for tag in as_array(pv)? {
+            tags.push(as_str(tag)?.to_string());
         }
     }
 
-    tags
+    Ok(tags)
 }
 
 pub fn jtoken_to_list_definitions(
@@ -452,11 +487,11 @@ pub fn jtoken_to_list_definitions(
 ) -> Result<ListDefinitionsOrigin, StoryError> {
     let mut all_defs: Vec<ListDefinition> = Vec::with_capacity(0);
 
-    for (name, list_def_json) in def.as_object().unwrap() {
+    for (name, list_def_json) in as_object(def)? {
         // Cast (string, object) to (string, int) for items
         let mut items: HashMap<String, i32> = HashMap::new();
-        for (k, v) in list_def_json.as_object().unwrap() {
-            items.insert(k.clone(), v.as_u64().unwrap() as i32);
+        for (k, v) in as_object(list_def_json)? {
+            items.insert(k.clone(), as_i32(v)?);
         }
 
         let def = ListDefinition::new(name.clone(), items);
@@ -477,7 +512,7 @@ pub(crate) fn jobject_to_hashmap_values(
             jtoken_to_runtime_object(v, None)?
                 .into_any()
                 .downcast::<Value>()
-                .unwrap(),
+                .map_err(|_| malformed("a value"))?,
         );
     }
 
@@ -490,7 +525,7 @@ pub(crate) fn jobject_to_int_hashmap(
     let mut dict: HashMap<String, i32> = HashMap::new();
 
     for (k, v) in jobj.iter() {
-        dict.insert(k.clone(), v.as_i64().unwrap() as i32);
+        dict.insert(k.clone(), as_i32(v)?);
     }
 
     Ok(dict)
